@@ -248,6 +248,13 @@ def analyse(plan: dict[str, Any], result: dict[str, Any]) -> Report:
     return rep
 
 
+def _totals(c: Counter) -> Counter:
+    out: Counter = Counter()
+    for (members, numel), n in c.items():
+        out[(members, 'elements')] += numel * n
+    return out
+
+
 def _restore_traffic(rep: Report, plan: dict[str, Any], ref: R.RefKFAC,
                      recs: dict[int, Any], asg: dict[int, Any]) -> None:
     """C13/C03: what load_state_dict communicates is what an inverse-update
@@ -275,6 +282,7 @@ def _restore_traffic(rep: Report, plan: dict[str, Any], ref: R.RefKFAC,
                 rep.bad('C13.unexpected_collective_in_load', rank=r,
                         kind=e[0])
         rep.stats['restore_traffic_checks'] += 1
+        got, want = _totals(got), _totals(want)
         if got != want:
             rep.bad('C13.load_broadcast_traffic', rank=r,
                     got=sorted((list(k[0]), k[1], v)
@@ -601,6 +609,10 @@ def _traffic_check(rep: Report, plan: dict[str, Any], rec: dict[str, Any],
     if got_ar != want_ar:
         rep.bad('C13.allreduce_elements', rank=r, got=got_ar, want=want_ar,
                 key=key, factor_step=factor_step)
+    # compared as element totals per group: how the payload is cut into
+    # messages is not part of the property (a fused broadcast is fine)
+    got_bc = _totals(got_bc)
+    want_bc = _totals(want_bc)
     if got_bc != want_bc:
         rep.bad('C13.broadcast_traffic', rank=r,
                 got=sorted((list(k[0]), k[1], v)
